@@ -2,11 +2,7 @@
 """Runs each seeded change against a list of quick checks (tools/try_mutant.sh) and records the outcome in meta.json."""
 import json, os, re, subprocess, sys
 HERE = os.path.dirname(os.path.dirname(os.path.abspath(__file__)))
-EXTRA = {
-    "C02-m1": ["C01"], "C02-m2": ["C01", "C03"], "C03-m1": ["C01", "C04"], "C03-m2": ["C04", "C16"], "C04-m1": ["C14"], "C04-m2": ["C15"],
-    "C05-m1": ["C18"], "C05-m2": ["C01", "C14"], "C06-m1": ["C01", "C04"], "C06-m2": ["C01"], "C16-m2": ["C04"], "C01-m2": ["C04", "C06"],
-    "C07-m1": ["C08"], "C07-m2": ["C08"], "C08-m1": ["C07"], "C08-m2": ["C07"], "C10-m2": ["C07"], "C17-m2": ["C16"], "C12-m1": [], "C15-m1": [],
-}
+EXTRA = {"C03-m2": ["C04"], "C04-m1": ["C14"], "C05-m1": ["C18"], "C07-m1": ["C08"], "C08-m2": ["C07"], "C16-m2": ["C04"]}
 only = sys.argv[1:]
 for d in sorted(os.listdir(os.path.join(HERE, "seeded"))):
     if only and d not in only:
@@ -15,6 +11,8 @@ for d in sorted(os.listdir(os.path.join(HERE, "seeded"))):
     if not os.path.exists(mp):
         continue
     meta = json.load(open(mp))
+    if meta.get("runs") and not os.environ.get("MATRIX_FORCE"):
+        continue
     checks = [meta["breaks_property"]] + EXTRA.get(d, [])
     out = subprocess.run([os.path.join(HERE, "tools", "try_mutant.sh"), os.path.join(HERE, "seeded", d, "patch.diff")] + checks,
                          capture_output=True, text=True).stdout
